@@ -50,8 +50,11 @@ def configs(tier):
 def run_one(seed, tape, opts):
     w = cc.setup(tape, opts, relay_ok=False)
     sim = w.sim
+    listeners_first = tape.choose(3, "listen_late") != 0
     wl = cc.Workload(w, tape, max_subs=3, max_ops=12,
-                     listen_late=tape.choose(3, "listen_late") == 0)
+                     listen_late=not listeners_first)
+    for s_ in w.sides:
+        s_.reuse_endpoints = tape.choose(2, "reuse_ep") == 0
     faults = cc.L2Faults(w, tape, tape.choose(5, "fb") if
                          opts.get("faults", True) else 0)
     faults.candidate_cuts = False   # C11 explores the connection race
@@ -93,6 +96,30 @@ def run_one(seed, tape, opts):
                     V("C10.open_failed." + rec[2].__name__, "each open is "
                       "delivered exactly once", "%s: connect(%r) failed with "
                       "%s" % (s.name, rec[0], rec[2].__name__))
+                    return
+        for s in w.sides:
+            # opens reach the peer application in the order the application
+            # issued them (whatever endpoint objects it used)
+            pos = {}
+            for i, q in enumerate(w.peer_of(s).protocols):
+                if q.role == "acceptor" and q.made and q.scid is not None:
+                    pos.setdefault(q.scid, i)
+            ready = getattr(w.peer_of(s), "listen_ready", {})
+            seen = [(rec[3], pos[rec[2].scid], rec[0], rec[4]) for rec in
+                    s.connect_results if len(rec) > 4 and rec[1] == "ok" and
+                    rec[2].scid in pos]
+            seen.sort()
+            for (i1, p1, n1, t1), (i2, p2, n2, t2) in zip(seen, seen[1:]):
+                # (an open for which no listener was registered yet is held
+                # back legitimately: only pairs whose listeners both existed
+                # before the first of the two was issued are compared)
+                if p1 > p2 and ready.get(n1, 1 << 60) < t1 and \
+                        ready.get(n2, 1 << 60) < t1:
+                    V("C10.opens_out_of_order", "every open is delivered to "
+                      "the peer application exactly once, in the order "
+                      "issued", "%s issued connect(%r) before connect(%r), "
+                      "the peer application saw them the other way round" %
+                      (s.name, n1, n2))
                     return
         for s in w.sides:
             # opens of one subprotocol reach the peer application in the
